@@ -23,6 +23,7 @@ ASSUMPTIONS = [
     "relative tolerance 1e-9 on float sums (<=12 periods)",
     "noise draws come from the owned numpy.random.normal seam with a fixed pattern per scenario (multiples of sigma)",
     "small scope: <=3 stations, <=3 sessions",
+    "block 'stoch': StochasticNetwork (1-2 stations, early_departure off/on, <=3 sessions of the C19 alphabet), every random.choice answer sequence; a session's connected periods are those in which it sat on a station while that period's charging took place",
 ]
 CHUNK = 40
 KINDS = ("ideal-large", "ideal-small", "l2c-large", "l2s-small", "l2c-noise", "l2s-noise")
@@ -75,7 +76,7 @@ def space(tier, seed):
                     for npat in (NOISE if noisy else NOISE[:1]):
                         spec, k = SCHEDS[sk]
                         items.append({"net": netname, "sessions": ss, "sched": spec, "sk": sk, "k": k, "period": period, "noise": list(npat)})
-    return items
+    return items + stoch_items(tier)
 
 
 def close(a, b, scale=1.0):
@@ -160,6 +161,123 @@ def check(scn, tr, out):
         out("final:periods", "iteration %d vs %d simulated periods" % (T, len(tr.periods)), T, len(tr.periods))
 
 
+# ---- block "stoch": the ledger on a StochasticNetwork (stations are assigned at run time, EVs may be
+# swapped out at the end of a period) - every answer sequence of the owned random.choice is explored ----
+def stoch_items(tier):
+    from mc.props import c19
+
+    kmax = 2 if tier == "quick" else 3
+    import itertools
+
+    items = []
+    for k in range(1, kmax + 1):
+        for combo in itertools.combinations_with_replacement(range(len(c19.TYPES)), k):
+            for ns in (1, 2):
+                for early in (False, True):
+                    items.append({"block": "stoch", "types": list(combo), "ns": ns, "early": early})
+    return items
+
+
+def stoch_once(item, chooser):
+    from mc.props import c19
+
+    sim, net, evs = c19.build(item)
+    log = []
+
+    def hook(kind, arg):
+        if kind == "before-period-end":  # charging of this period is done, nobody has been swapped yet
+            log.append(
+                {
+                    "t": sim._iteration,
+                    "occ": {s: (net._EVSEs[s].ev.session_id if net._EVSEs[s].ev is not None else None) for s in net.station_ids},
+                    "energy": {e.session_id: float(e.energy_delivered) for e in evs},
+                    "charge": {e.session_id: float(e._battery._current_charge) for e in evs},
+                }
+            )
+            if sim._iteration > 12:
+                raise S.Watchdog("still running")
+
+    net._h = hook
+    old = c19.SN.random
+    c19.SN.random = c19.Shim(chooser)
+    err = None
+    try:
+        with warnings.catch_warnings():
+            warnings.simplefilter("ignore")
+            sim.run()
+    except Exception as exc:  # noqa
+        err = exc
+    finally:
+        c19.SN.random = old
+    return sim, net, evs, log, err
+
+
+def check_stoch(item, sim, net, evs, log, err, out):
+    if err is not None:
+        out("stoch:exception:%s" % type(err).__name__, "run() raised %r" % (err,), repr(err), None)
+        return
+    cr = sim.charging_rates
+    ids = net.station_ids
+    dt = sim.period / 60.0
+    V = 208.0
+    prev = {e.session_id: 0.0 for e in evs}
+    prevc = {e.session_id: float(e._battery._init_charge) for e in evs}
+    total = 0.0
+    for p in log:
+        t = p["t"]
+        where = {sid: s for s, sid in p["occ"].items() if sid is not None}
+        for i, s in enumerate(ids):
+            if p["occ"][s] is None and cr[i, t] != 0:
+                out("stoch:rate-on-vacant", "period %d: station %s was vacant while charging but the recorded rate is %r" % (t, s, cr[i, t]), float(cr[i, t]), 0)
+                return
+        for sid in prev:
+            de = p["energy"][sid] - prev[sid]
+            dc = p["charge"][sid] - prevc[sid]
+            exp = cr[ids.index(where[sid]), t] * V / 1000.0 * dt if sid in where else 0.0
+            if not close(de, exp, 1e-3):
+                out("stoch:energy-vs-recorded-rate", "period %d session %s (at %s): energy counter moved %.12g, recorded rate x V x dt = %.12g" % (t, sid, where.get(sid), de, exp), de, exp)
+                return
+            if not close(dc, de, 1e-3):
+                out("stoch:battery-vs-energy", "period %d session %s: battery gained %.12g, counter %.12g" % (t, sid, dc, de), dc, de)
+                return
+            prev[sid], prevc[sid] = p["energy"][sid], p["charge"][sid]
+    integ = float(sum(cr[i, t] * V / 1000.0 * dt for i in range(len(ids)) for t in range(cr.shape[1])))
+    tot = acnsim.total_energy_delivered(sim)
+    if not close(tot, integ, 1e-3):
+        out("stoch:total-vs-integral", "total_energy_delivered=%.12g, integral of recorded aggregate power=%.12g" % (tot, integ), tot, integ)
+    agg = [float(sum(cr[i, t] for i in range(len(ids)))) for t in range(cr.shape[1])]
+    if not close(sim.peak, max([0.0] + agg), 1e-3):
+        out("stoch:peak", "peak=%s, max recorded aggregate current=%s" % (sim.peak, max([0.0] + agg)), float(sim.peak), max([0.0] + agg))
+
+
+def run_stoch(item, only_choices=None):
+    from mc.engines import explore_choices, Chooser
+
+    acc = Acc()
+    if only_choices is not None:
+        ch = Chooser(only_choices)
+        res = stoch_once(item, ch)
+        viol = []
+        check_stoch(item, *res, lambda sig, what, o=None, e=None: viol.append((sig, what, o, e)))
+        return viol
+    for choices, res in explore_choices(lambda ch: stoch_once(item, ch)):
+        sim, net, evs, log, err = res
+        viol = []
+        check_stoch(item, sim, net, evs, log, err, lambda sig, what, o=None, e=None: viol.append((sig, what, o, e)))
+        acc.evals += 1
+        acc.transitions += len(log)
+        swapped = net.early_unplug > 0 or net.swaps > 0
+        acc.outcome(("stoch", net.early_unplug, net.swaps, round(float(sim.peak), 3)))
+        for p in log:
+            acc.state(("stoch", item["ns"], item["early"], p["t"], tuple(sorted(p["occ"].items()))))
+        if swapped:
+            acc.nt(("stoch", tuple(item["types"]), item["ns"], item["early"], tuple(choices)))
+        for sig, what, o, e in viol:
+            acc.violation(sig, what, dict(item, choices=list(choices)), o, e)
+    acc.sample({"block": "stoch", "types": item["types"], "stations": item["ns"], "early_departure": item["early"]}, cap=1)
+    return acc
+
+
 def execute(scn):
     with S.owned_noise(S.cyclic(scn.get("noise") or [0.0])):
         tr = S.run_sim(scn)
@@ -169,6 +287,8 @@ def execute(scn):
 
 
 def run(scn):
+    if scn.get("block") == "stoch":
+        return run_stoch(scn)
     acc = Acc()
     tr, viol = execute(scn)
     acc.evals += 1
@@ -189,5 +309,9 @@ def run(scn):
 
 
 def replay(scn):
+    if scn.get("block") == "stoch":
+        item = {k: scn[k] for k in ("block", "types", "ns", "early")}
+        viol = run_stoch(item, only_choices=scn.get("choices") or [])
+        return [{"signature": s, "what": w, "observed": o, "expected": e} for s, w, o, e in viol]
     _, viol = execute(scn)
     return [{"signature": s, "what": w, "observed": o, "expected": e} for s, w, o, e in viol]
